@@ -34,7 +34,7 @@ def sequences(k, maxlen):
 
 
 SITE_OF = {"implements": "type", "constructor": "type", "immutable": "type", "testonly": "type", "mutable": "field", "packageonly": "type", "ignore": "ignore"}
-EXTRA_SITES = ["func", "method", "field", "group", "group2", "groupdoc", "groupmixed", "trailing", "local", "free", "var", "plainfield", "ignore", "type"]
+EXTRA_SITES = ["func", "method", "field", "group", "group2", "groupdoc", "groupmixed", "trailing", "local", "localvar", "localgroup", "free", "var", "plainfield", "ignore", "type"]
 
 
 def decl_for(i, c, site):
@@ -60,6 +60,10 @@ def decl_for(i, c, site):
         return ["type X%d struct{} %s" % (i, c), ""]
     if site == "local":
         return ["func L%d() {" % i, "\t" + c, "\ttype t struct{}", "\t_ = t{}", "}", ""]
+    if site == "localvar":    # a local declaration inside a function literal of a package-level initialiser
+        return ["var L%d = func() int {" % i, "\t" + c, "\ttype t struct{ F int }", "\tv := t{}", "\tv.F = 1", "\treturn v.F", "}()", ""]
+    if site == "localgroup":  # ... and inside a local parenthesised group
+        return ["func L%d() {" % i, "\ttype (", "\t\t" + c, "\t\tt struct{}", "\t)", "\t_ = t{}", "}", ""]
     if site == "free":
         return [c, "", "type Y%d struct{}" % i, ""]
     if site == "var":
@@ -219,7 +223,7 @@ def run(ctx):
     rep.cov["exhaustive"] = True
     rep.cov["rule"] = ("comment lines = '//' + ALL token sequences of length <= %d over a 20-token alphabet per keyword (blanks, //, the keyword, near-keywords in other case / longer / split, another keyword, "
                        ", . & ; - and argument shapes), enumerated exhaustively at the keyword's attachment site; sampled longer sequences; every argument shape x lead x tail at EVERY site "
-                       "(type, func, method, field of @immutable struct, grouped spec - also a group of two where the second member has no doc, a documented group, a documented group with a documented member -, var for @ignore; inert: trailing, local declaration, detached, var doc, field of plain struct); two keywords on one "
+                       "(type, func, method, field of @immutable struct, grouped spec - also a group of two where the second member has no doc, a documented group, a documented group with a documented member -, var for @ignore; inert: trailing, local declaration (in a function, in a function literal of a package-level initialiser, in a local group), detached, var doc, field of plain struct); two keywords on one "
                        "line, commented-out annotations, block comments; fuzzed strings. Compared: the full annotation summary and the @ignore markers of each package. Plus %d strings (arbitrary bytes, "
                        "newlines, invalid UTF-8, leading blanks) through Go's regexp vs Regex.v with submatch indices. non-trivial = distinct recognised annotation / matching string" % (maxlen, nre))
     rep.cov["input_distribution"] = dist
